@@ -1,6 +1,6 @@
 """C14 - the bit reader delivers each bit once, in order: decided for the *effect discipline* (which operations may move
 the position, and when), the forms of the arithmetic helpers, the start-code scan and VLC-walk termination.
-MSB-first assembly inside peek_bits' byte loop is NOT decided (loop-carried accumulator)."""
+MSB-first assembly inside peek_bits' byte loop is decided by rule H (the loop's transfer function, tabulated)."""
 from ..cfg import cfg_of
 from ..dataflow import (defs_of, callee_is, strip_ref, fields_of, expr_of, expr_of_place, strip_casts, expr_str, ematch, V, ANY)
 from .. import effects, tables
@@ -262,6 +262,131 @@ def e_helper_forms(ck, F):
     else: ck.violation('E', 'E : peek_signed_bits : sign extension', where_of(b), 'peek_signed_bits does not implement two\'s-complement sign extension in the recognised form')
 
 
+def h_msb_first(ck, F):
+    ck.rule('H', 'peek_bits assembles the value most-significant bit first: starting from zero at byte bits_read/8 with offset bits_read%8, each iteration takes the next '
+                 'k = min(8 - offset, needed) bits of the current byte - accum := (accum << k) | ((byte << offset, as u8) >> (8 - k)) - then offset := 0, needed -= k; it stops when needed = 0 '
+                 'and returns accum. The per-iteration transfer function is extracted as terms and tabulated over every (offset, needed, byte) for 8-, 16- and 32-bit accumulators')
+    from ..bitslice import Table
+    from ..loopexpr import Norm, show as nshow, ev, find as nfind, NotExact, guards as nguards, guard_term
+    name = RD + 'peek_bits'
+    b = F.body(name); T = Table(F, name, paths=False, cast_kinds=True); N = Norm(T); g = T.g
+    byname = {}
+    for l, nm in T.names.items(): byname.setdefault(nm, []).append(int(l))
+    def defs(nm):
+        out = []
+        for l in byname.get(nm, []):
+            for d in T.D.defs.get(l, []):
+                if d[0] == 'assign': out.append((d[1], N.n(T.ex_rv(d[3]['rv']))))
+                elif d[0] == 'call': out.append((d[1], N.n(T.ex_call(d[1], g.blocks[d[1]]['term']))))
+        return out
+    bad = []
+    POS = ('fld', ('v', 'self'), (rr.F_BITS,))
+    A, OFF, NEED = ('v', 'accum'), ('v', 'bits_read'), ('v', 'bits_needed')
+    acc = defs('accum'); off = defs('bits_read'); need = defs('bits_needed')
+    loops = g.loops()
+    if len(loops) != 1: ck.violation('H', 'H : peek_bits : loop', where_of(b), 'expected one loop, found %d' % len(loops)); return
+    head, body = next(iter(loops.items()))
+    # the bytes visited: buffer.iter().skip(bits_read / 8)
+    it = [expr_of(F, b, t['args'][0]) for bb, t in g.calls() if F.callee_name(t).endswith('IntoIterator>::into_iter')]
+    want_it = ('callp', 'Iterator::skip', ('callp', 'VecDeque::<T, A>::iter', ('param', 1, (rr.F_BUFFER,))), ('op', 'Div', ('param', 1, (rr.F_BITS,)), ('c', 8)))
+    if len(it) != 1 or ematch(want_it, it[0]) is None: bad.append('the loop does not visit buffer.iter().skip(bits_read / 8): %s' % [expr_str(x) for x in it])
+    # initial values
+    init_acc = [v for bb, v in acc if bb not in body]; upd_acc = [(bb, v) for bb, v in acc if bb in body]
+    init_off = [v for bb, v in off if bb not in body]; upd_off = [(bb, v) for bb, v in off if bb in body]
+    upd_need = [(bb, v) for bb, v in need if bb in body]
+    if [nshow(x) for x in init_acc] != ['zero()']: bad.append('accum starts as %s' % [nshow(x) for x in init_acc])
+    try:
+        if len(init_off) != 1 or any(ev(init_off[0], {POS: p_}) != p_ % 8 for p_ in range(0, 256)): bad.append('the bit offset starts as %s' % [nshow(x) for x in init_off])
+    except (Unanalysable, NotExact) as e_: bad.append('initial offset: %s' % e_)
+    if [nshow(v) for _, v in upd_off] != ['0']: bad.append('the bit offset is updated to %s inside the loop' % [nshow(v) for _, v in upd_off])
+    if len(upd_need) != 1 or len(upd_acc) != 2: bad.append('expected one update of bits_needed and two of accum in the loop, found %d / %d' % (len(upd_need), len(upd_acc)))
+    if bad:
+        ck.violation('H', 'H : peek_bits : shape', where_of(b), '; '.join(bad)); return
+    # the current byte: the loop item
+    items = set()
+    for _, v in upd_acc: items |= set(nfind(v, lambda z: z[0] == 'f' and z[1] == 'item'))
+    if len(items) != 1: ck.violation('H', 'H : peek_bits : byte', where_of(b), 'accum is not updated from exactly the current byte (%s)' % [nshow(x) for x in items]); return
+    BYTE = next(iter(items))
+    # evaluator for the accumulator terms (W = width of the accumulator type)
+    def evx(t, env, W):
+        if t in env: return env[t]
+        k = t[0]
+        if k == 'fld' and t[1][0] == 'f' and t[1][1] == 'checked_shl' and tuple(t[2]) == (('as', 1), 0):
+            x, n = evx(t[1][2], env, W), evx(t[1][3], env, W)
+            if n >= W: raise Unanalysable('payload of a failed checked_shl')
+            return (x << n) & ((1 << W) - 1)
+        if k == 'f':
+            n = t[1]
+            if n == 'bitor': return evx(t[2], env, W) | evx(t[3], env, W)
+            if n == 'unwrap_or' and t[2][0] == 'f' and t[2][1] == 'checked_shr':
+                x, sh = evx(t[2][2], env, W), evx(t[2][3], env, W)
+                return evx(t[3], env, W) if sh >= 8 or sh < 0 else (x >> sh)
+            if n == 'shl' and t[2] == BYTE:
+                sh = evx(t[3], env, W)
+                if sh >= 8: raise Unanalysable('u8 shift by %d' % sh)
+                return (evx(t[2], env, W) << sh) & 0xFF           # `byte << offset` on a u8 discards the bits already consumed
+            if n in ('into', 'from'): return evx(t[2], env, W)
+            if n == 'min': return min(evx(x, env, W) for x in t[2:])
+            if n == 'satsub': return max(0, evx(t[2], env, W) - evx(t[3], env, W))
+            if n.startswith('as_'): return evx(t[2], env, W)
+        if k == '+': return sum(evx(x, env, W) for x in t[1:])
+        if k == '*':
+            r = 1
+            for x in t[1:]: r *= evx(x, env, W)
+            return r
+        return ev(t, env)
+    # which accumulator update runs when: the arm under `checked_shl(accum, k) is Some` and the other one
+    arm_some = [(bb, v) for bb, v in upd_acc if nfind(v, lambda z: z[0] == 'f' and z[1] == 'checked_shl')]
+    arm_none = [(bb, v) for bb, v in upd_acc if (bb, v) not in arm_some]
+    sel = None
+    if len(arm_some) == 1 and len(arm_none) == 1:
+        for a_, s_ in nguards(T, arm_some[0][0]):
+            gt = guard_term(T, N, a_, s_)
+            if gt[0][0] == 'f' and gt[0][1] == 'discr' and gt[0][2][0] == 'f' and gt[0][2][1] == 'checked_shl' and gt[0][2][2] == A and gt[1] == [1]: sel = gt[0][2][3]
+    if sel is None:
+        ck.violation('H', 'H : peek_bits : arms', where_of(b), 'the two accumulator updates are not selected by checked_shl(accum, k) being Some / None'); return
+    # statement order inside one iteration: everything that reads the offset / the remaining count is computed before they are updated
+    ord_ = T.order
+    first_upd = min(ord_[bb] for bb, _ in upd_off + upd_need)
+    if any(ord_[bb] > first_upd for bb, _ in upd_acc):
+        bad.append('accum is updated after the offset / remaining count have been changed')
+    msg = None
+    try:
+        for W in (8, 16, 32):
+            for off_ in range(8):
+                for need_ in range(1, W + 1):
+                    kk = min(8 - off_, need_)
+                    for byte in range(256):
+                        for a0 in (0, 1, (1 << (W - kk)) - 1 if W > kk else 0, 0x5A5A5A5A & ((1 << W) - 1)):
+                            env = {A: a0, OFF: off_, NEED: need_, BYTE: byte}
+                            if evx(sel, env, W) != kk: msg = 'the number of bits taken is %s, expected min(8 - offset, needed) = %d (offset %d, needed %d)' % (evx(sel, env, W), kk, off_, need_); break
+                            chunk = ((byte << off_) & 0xFF) >> (8 - kk)
+                            wantv = ((a0 << kk) & ((1 << W) - 1)) | chunk
+                            got = evx(arm_some[0][1], env, W) if kk < W else evx(arm_none[0][1], env, W)
+                            if got != wantv:
+                                msg = 'with a %d-bit accumulator %#x, offset %d, %d bits needed and byte %#04x the new accumulator is %#x, MSB-first assembly gives %#x' % (W, a0, off_, need_, byte, got, wantv); break
+                            if ev(upd_need[0][1], {NEED: need_, OFF: off_}) != need_ - kk:
+                                msg = 'the remaining count becomes %s, expected %d' % (ev(upd_need[0][1], {NEED: need_, OFF: off_}), need_ - kk); break
+                        if msg: break
+                    if msg: break
+                if msg: break
+            if msg: break
+    except (Unanalysable, NotExact, KeyError, IndexError, TypeError) as e_:
+        msg = 'the transfer function could not be tabulated: %s' % e_
+    if msg: bad.append(msg)
+    # the loop ends when nothing is needed any more, and the accumulator is what is returned
+    stop = False
+    for a_, s_ in nguards(T, upd_acc[0][0]):
+        gt = guard_term(T, N, a_, s_)
+        if a_ in body and nshow(gt[0]) in ('Eq(0, bits_needed)', 'Eq(bits_needed, 0)') and gt[1] == [0]: stop = True
+    if not stop: bad.append('an iteration is not skipped when bits_needed == 0')
+    rets = [nshow(N.n(x[2])) for x in T.local_defs(0) if x[2] is not None and x[0] not in body and g.reachable_from([head]) and x[0] in g.reachable_from([head])]
+    if rets != ['Ok(accum)']: bad.append('after the loop the function returns %s' % rets)
+    if bad: ck.violation('H', 'H : peek_bits : MSB-first assembly', where_of(b, upd_acc[0][0]), '; '.join(bad[:4]))
+    else: ck.ok('H', 'peek_bits: accum := (accum << k) | ((byte << offset) as u8 >> (8 - k)), k = min(8 - offset, needed); offset := 0; needed -= k - tabulated for 8 / 16 / 32-bit accumulators over all offsets, counts and bytes; '
+                     'starts at byte bits_read/8, offset bits_read%8, accum 0; returns accum', where_of(b, upd_acc[0][0]))
+
+
 def f_start_code(ck, F):
     ck.rule('F', 'start-code scan: the compared window is always peek_bits(17); Some(k) is returned only on window == 1; each iteration skips exactly one '
                  'bit and increments k by one; None is returned only when !in_error and k > realignment_bits()')
@@ -423,16 +548,17 @@ def g_vlc(ck, F):
 
 
 def run(ck, F, tier):
-    ck.explanation = ('C14 decided for the effect discipline only: A who may move the position (mod/ref summaries + dominance in skip_bits), B/T4 look-aheads '
+    ck.explanation = ('C14 decided for the effect discipline and the bit assembly: A who may move the position (mod/ref summaries + dominance in skip_bits), B/T4 look-aheads '
                       'and transactions restore the checkpoint on the right paths, C reads are peek-then-skip with one n, E structural forms of the '
                       'arithmetic helpers (pattern match on def-use expressions), F the start-code scan, G VLC walk + all 6 tables acyclic. '
-                      'NOT decided: MSB-first assembly inside the peek_bits byte loop, and history-level exactly-once delivery beyond these rules.')
-    ck.assumptions += ['VecDeque len/push_back/drain/iter semantics', 'peek_bits returns the next n bits MSB-first (not decided here)']
+                      'H the MSB-first assembly loop of peek_bits (transfer function tabulated). History-level exactly-once delivery follows from A-H by induction over the operations (an argument, DESIGN.md 11.11).')
+    ck.assumptions += ['VecDeque len/push_back/drain/iter semantics', 'VecDeque::iter visits the buffered bytes in insertion order']
     a_who_moves(ck, F)
     b_lookahead(ck, F)
     c_read_is_peek_then_skip(ck, F)
     ck.rule('T4', 'wrappers (shared with C05)')
     c05.t4_wrappers(ck, F)
     e_helper_forms(ck, F)
+    h_msb_first(ck, F)
     f_start_code(ck, F)
     g_vlc(ck, F)
